@@ -157,6 +157,9 @@ func TestVerifCtl_C14_Concurrent(t *testing.T) {
 		{R: 3, N: 8, Seen: 2, Log: []int{3}, Pushes: []int{4}},
 		{R: 2, N: 7, Seen: 3, Log: []int{4}, Pushes: []int{5, 3}},
 		{R: 3, N: 9, Seen: 1, Log: []int{2, 3}, Pushes: []int{3}},
+		// a push far ahead of the log position: the two windows overlap only partly
+		{R: 4, N: 12, Seen: 3, Log: []int{4}, Pushes: []int{7}},
+		{R: 3, N: 10, Seen: 4, Log: []int{5}, Pushes: []int{7, 3}},
 	}
 	maxRuns, maxPre := 1200, 2
 	if vacct.Thorough() {
@@ -185,7 +188,8 @@ func TestVerifCtl_C14_ConcurrentRandom(t *testing.T) {
 		}
 		sc.N = sc.Seen + nl + 1 + sc.R
 		for i, n := 0, rapid.IntRange(1, 2).Draw(rt, "pushes"); i < n; i++ {
-			sc.Pushes = append(sc.Pushes, rapid.IntRange(max(1, sc.Seen-sc.R+1), min(sc.N, sc.Seen+nl+sc.R)).Draw(rt, "push"))
+			lo, hi := max(1, sc.Seen-sc.R+1), min(sc.N, sc.Seen+nl+sc.R)
+			sc.Pushes = append(sc.Pushes, rapid.OneOf(rapid.IntRange(lo, hi), rapid.IntRange(max(lo, hi-2), hi)).Draw(rt, "push"))
 		}
 		return sc
 	}, 400)
